@@ -185,6 +185,8 @@ func runGraph(prop string, mix opMix) func(s *Sim) {
 			}
 			return pts
 		}
+		lastNodePts := map[string]data.Points{}
+		lastEdgePts := map[[2]string]data.Points{}
 		tab := mix.table()
 		for wl.More(14) {
 			switch weighted(wl, tab) {
@@ -233,6 +235,13 @@ func runGraph(prop string, mix opMix) func(s *Sim) {
 				n := pickNode()
 				pts := somePoints(1 + wl.Draw(3))
 				ack := wl.Chance(3, 4)
+				if prev, ok := lastNodePts[n]; ok && wl.Chance(1, 6) {
+					// a tie: same identity and exactly the time stamp of an earlier write to this node, different content
+					// (the store accepts it and overwrites; the hash has to follow)
+					q := prev[wl.Draw(len(prev))]
+					pts[0].Type, pts[0].Key, pts[0].Time = q.Type, q.Key, q.Time
+				}
+				lastNodePts[n] = append(data.Points(nil), pts...)
 				addOp(fmt.Sprintf("points %s [%s]", n, shortPts(pts)), func(a *Actor) error {
 					return client.SendNodePoints(a.Nc, n, append(data.Points(nil), pts...), ack)
 				})
@@ -242,6 +251,11 @@ func runGraph(prop string, mix opMix) func(s *Sim) {
 					continue
 				}
 				pts := somePoints(1 + wl.Draw(2))
+				if prev, ok := lastEdgePts[e]; ok && wl.Chance(1, 6) {
+					q := prev[wl.Draw(len(prev))]
+					pts[0].Type, pts[0].Key, pts[0].Time = q.Type, q.Key, q.Time
+				}
+				lastEdgePts[e] = append(data.Points(nil), pts...)
 				addOp(fmt.Sprintf("edge points %s/%s [%s]", e[0], e[1], shortPts(pts)), func(a *Actor) error {
 					return client.SendEdgePoints(a.Nc, e[1], e[0], append(data.Points(nil), pts...), true)
 				})
@@ -298,8 +312,43 @@ func runGraph(prop string, mix opMix) func(s *Sim) {
 				case 0: // tombstone aimed at the root
 					t := nextT()
 					v := float64(1 + wl.Draw(2))
-					addOp("REFUSED delete root", func(a *Actor) error {
-						return client.SendEdgePoint(a.Nc, g.root, "root", data.Point{Type: data.PointTypeTombstone, Value: v, Time: t}, true)
+					if wl.Chance(1, 2) {
+						addOp("REFUSED delete root", func(a *Actor) error {
+							return client.SendEdgePoint(a.Nc, g.root, "root", data.Point{Type: data.PointTypeTombstone, Value: v, Time: t}, true)
+						})
+						break
+					}
+					// the deleting tombstone inside a batch: what counts is the point the batch would leave behind (per
+					// identity the newest, on a tie the later one), wherever it stands and whichever spelling of the key it uses
+					del := data.Point{Type: data.PointTypeTombstone, Key: []string{"", "0"}[wl.Draw(2)], Value: v, Time: t}
+					live := data.Point{Type: data.PointTypeTombstone, Key: []string{"", "0"}[wl.Draw(2)], Value: 0}
+					var pts data.Points
+					refused := true
+					switch wl.Draw(4) {
+					case 0: // live first and older
+						live.Time = t.Add(-time.Duration(1 + wl.Draw(5)))
+						pts = data.Points{live, del}
+					case 1: // same instant, the deleting one later in the batch
+						live.Time = t
+						pts = data.Points{live, del}
+					case 2: // the deleting one first in the batch but newer
+						live.Time = t.Add(-time.Duration(1 + wl.Draw(5)))
+						pts = data.Points{del, live}
+					case 3: // control: the batch leaves the root live (newer live tombstone), a valid write
+						live.Time = t.Add(time.Duration(1 + wl.Draw(5)))
+						g.clock += 6
+						pts = data.Points{del, live}
+						refused = false
+					}
+					if wl.Chance(1, 2) {
+						pts = append(data.Points{{Type: "role", Text: "r", Time: nextT()}}, pts...)
+					}
+					name := "REFUSED delete root inside a batch"
+					if !refused {
+						name = "root tombstone batch that leaves the root live"
+					}
+					addOp(fmt.Sprintf("%s [%s]", name, shortPts(pts)), func(a *Actor) error {
+						return client.SendEdgePoints(a.Nc, g.root, "root", append(data.Points(nil), pts...), true)
 					})
 				case 1: // self edge
 					n := pickNode()
